@@ -67,20 +67,20 @@ def subpixel_pcc(
             )
         )
 
-        _lshift = (shifts + _max_shifts) * upsample_factor
-        _rshift = (_max_shifts - shifts) * upsample_factor
-        power = crop_by_max_shifts(
-            power, _lshift.astype(np.int32), _rshift.astype(np.int32), backend
-        )
+        # NOTE: the upsampled region is centered at ``dftshift`` (not FFT-ordered), so
+        # it is restricted to the permitted range by plain slicing.
+        _lshift = np.floor((shifts + _max_shifts) * upsample_factor + 1e-3)
+        _rshift = np.floor((_max_shifts - shifts) * upsample_factor + 1e-3)
+        _start = np.maximum(dftshift - _lshift, 0).astype(np.int32)
+        _stop = np.minimum(dftshift + _rshift + 1, upsampled_region_size).astype(np.int32)
+        power = power[tuple(slice(s0, s1) for s0, s1 in zip(_start, _stop))]
 
-        maxima = (
-            backend.asnumpy(
-                backend.unravel_index(backend.argmax(power), power.shape)
-            ).astype(np.float32)
-            - dftshift
+        imax = backend.asnumpy(
+            backend.unravel_index(backend.argmax(power), power.shape)
         )
+        maxima = imax.astype(np.float32) + _start - dftshift
         shifts = shifts + maxima / upsample_factor
-        pcc = math.sqrt(backend.asnumpy(power[tuple(int(round(m)) for m in maxima)]))
+        pcc = math.sqrt(backend.asnumpy(power[tuple(int(i) for i in imax)]))
     else:
         pcc = math.sqrt(backend.asnumpy(power[tuple(maxima)]))
     return shifts, pcc
